@@ -4,7 +4,7 @@ import itertools
 from .. import drive, forms, opsem, ref, scopes
 from ..runner import Check, Result
 
-SOLVER_TIMEOUT_MS = 60000
+SOLVER_TIMEOUT_MS = 20000
 CHECK_LIMIT = 400   # Optimize.check() calls after which an enumeration is declared non-terminating
 
 
@@ -27,7 +27,7 @@ class counted_checks:
             if self.n > CHECK_LIMIT:
                 raise NonTermination("more than %d Optimize.check() calls" % CHECK_LIMIT)
             # a single check() that never returns (e.g. an objective that is unbounded below) must not hang the explorer:
-            # the scopes here take milliseconds, so a 60 s solver timeout cannot cut a legitimate run short
+            # the scopes here take milliseconds, so a 20 s solver timeout cannot cut a legitimate run short
             opt.set("timeout", SOLVER_TIMEOUT_MS)
             r = self.real(opt, *a)
             if r == self.z3.unknown:
